@@ -838,7 +838,21 @@ class CallMixin:
             r = self.new_ref(s, cls)
             self.fresh_set(s, r, self.f_setof(args[0].t) if cls.k.sort() == Val else None)
             return [(r, s)]
+        if len(args) == 1 and isinstance(args[0], SRef) and args[0].cls.kind == 'set':
+            # set(s) / frozenset(s) of a heap set: a fresh set object with the same members and the same length
+            src = args[0]
+            s = st.copy()
+            dom, n = self.hload(s, src, 'dom'), self.hload(s, src, 'size')
+            r = self.new_ref(s, src.cls)
+            self.hstore(s, r, 'dom', dom)
+            self.hstore(s, r, 'size', n)
+            return [(r, s)]
         raise Unsupported('set(iterable)')
+
+    def bi_frozenset(self, args, kwargs, st, node):
+        if len(args) == 1 and isinstance(args[0], SRef) and args[0].cls.kind == 'set':
+            return self.bi_set(args, kwargs, st, node)       # immutability is not modelled: the copy is only read by contracts
+        raise Unsupported('frozenset(%r)' % (args[:1],))
 
     def fresh_set(self, s, r, dom, upper=None):
         """give set object r the member predicate dom (arbitrary when None) and an unknown length constrained only by the
